@@ -73,6 +73,8 @@ type Peer struct {
 	wg      sync.WaitGroup
 	tlsConf *tls.Config
 	connSeq atomic.Int64
+	// HandshakeTimeout bounds the TLS handshake of a TLS peer (default 10 s).
+	HandshakeTimeout time.Duration
 }
 
 // countingConn counts bytes read from the client side.
@@ -147,7 +149,11 @@ func (p *Peer) serve() {
 			var conn net.Conn = countingConn{c, &p.bytesIn}
 			if p.tlsConf != nil {
 				tc := tls.Server(conn, p.tlsConf)
-				tc.SetDeadline(time.Now().Add(10 * time.Second))
+				hs := p.HandshakeTimeout
+				if hs <= 0 {
+					hs = 10 * time.Second
+				}
+				tc.SetDeadline(time.Now().Add(hs))
 				if err := tc.Handshake(); err != nil {
 					return
 				}
